@@ -163,21 +163,25 @@ func VerifC16NewWireRT(flavours []string, withTracer bool) *VerifC16Wire {
 // awaitCompletion waits until the trace of the call has been handed over (rt mode, after a
 // cancellation: the hand-off comes from the middleware's goroutine).
 func (v *VerifC16Wire) awaitCompletion(c *verifC16Call) {
-	deadline := time.After(5 * time.Second)
+	waited := false
 	if w, ok := c.ctx.Value(wireCtxKey{}).(*wireWrapper); ok {
 		select {
 		case <-w.traceAvailable:
-		case <-deadline:
+		case <-time.After(5 * time.Second):
 		}
-		return
+		waited = true
 	}
+	// wireTracer.Complete hands the trace to the Tracer behind it after setWireTrace, on the
+	// middleware's goroutine: wait for that as well before anything is observed
 	if v.inner != nil {
 		ctx, cancel := context.WithTimeout(context.Background(), 5*time.Second)
 		defer cancel()
 		_, _ = v.inner.Await(ctx, c.name)
-		return
+		waited = true
 	}
-	time.Sleep(20 * time.Millisecond)
+	if !waited {
+		time.Sleep(20 * time.Millisecond)
+	}
 }
 
 func verifC16Examine(ctx context.Context) string {
